@@ -86,6 +86,26 @@ def _f(params, shard, nshards, seed):
     return out
 
 
+@family('c09_helper_sweep')
+def _f(params, shard, nshards, seed):
+    """failure inside a helper defined by an earlier part: helper length x number of want lines of the
+    calling part x position x preceding want (the traceback frame of the helper carries a line number
+    that is unrelated to the failing part's own lines)"""
+    out = []
+    i = 0
+    for extra in range(0, params.get('max_extra', 6) + 1):
+        for own_want in range(0, 4):
+            for pos in ('first', 'middle', 'last'):
+                for pw in (False, True):
+                    for oe in ('return', 'raise'):
+                        for verbose in params.get('verbose', [0]):
+                            if i % nshards == shard:
+                                out.append(S.build_c09('helper-short', pos, pw, False, on_error=oe, verbose=verbose,
+                                                       helper_extra=extra, own_want=own_want))
+                            i += 1
+    return out
+
+
 def _worker(args):
     name, params, shard, nshards, seed = args
     scs = FAMILIES[name](params, shard, nshards, seed)
